@@ -433,7 +433,7 @@ def gen_foreign_spec(rng, avoid_D=None):
 
 
 def gen_np_state(rng):
-    return dict(op="np_state", print=dict(linewidth=rng.choice([8, 20, 200]), threshold=rng.choice([3, 1000]), precision=rng.choice([2, 8]),
+    return dict(op="np_state", print=dict(linewidth=rng.choice([1, 1, 8, 200]), threshold=rng.choice([3, 1000]), precision=rng.choice([2, 8]),
                                           edgeitems=rng.choice([1, 3])), err=dict(all=rng.choice(["ignore", "warn"])))
 
 
